@@ -150,6 +150,29 @@ pub fn png_filter(d: &[u8], rowlen: usize, bpp: usize, tags: &[u8]) -> Vec<u8> {
     }
     o
 }
+/// TIFF predictor 2 for samples of 1, 2, 4, 8 or 16 bits (TIFF 6.0 section 14: every sample is replaced by its difference to the
+/// sample of the same component of the pixel to its left, modulo 2^bits; rows start on byte boundaries, samples are packed
+/// most significant bit first, 16 bit samples are big-endian)
+pub fn tiff_filter_bits(d: &[u8], rowlen: usize, colors: usize, bits: usize, samples_per_row: usize) -> Vec<u8> {
+    let mut o = Vec::with_capacity(d.len());
+    for row in d.chunks(rowlen) {
+        // (the bits that pad the last byte of a row are no samples and stay as they are)
+        let n = (row.len() * 8 / bits).min(if samples_per_row == 0 { usize::MAX } else { samples_per_row });
+        let get = |i: usize| -> u32 { let bit = i * bits; (0..bits).fold(0u32, |acc, b| (acc << 1) | ((row[(bit + b) / 8] >> (7 - (bit + b) % 8)) & 1) as u32) };
+        let samples: Vec<u32> = (0..n).map(get).collect();
+        let mask = if bits == 32 { u32::MAX } else { (1u32 << bits) - 1 };
+        let mut out = vec![0u8; row.len()];
+        if n * bits < row.len() * 8 { let last = row.len() - 1; out[last] = row[last] & (0xffu8 >> ((n * bits) % 8)); }
+        for i in 0..n {
+            let v = if i >= colors { samples[i].wrapping_sub(samples[i - colors]) & mask } else { samples[i] };
+            for b in 0..bits {
+                if (v >> (bits - 1 - b)) & 1 == 1 { let bit = i * bits + b; out[bit / 8] |= 1 << (7 - bit % 8); }
+            }
+        }
+        o.extend_from_slice(&out);
+    }
+    o
+}
 /// TIFF predictor 2 (horizontal differencing), 8 bits per component
 pub fn tiff_filter(d: &[u8], rowlen: usize, colors: usize) -> Vec<u8> {
     let mut o = d.to_vec();
